@@ -2,8 +2,8 @@
 
 DUT: real USBDevice(bus=UTMIInterface()) with the standard control endpoint (StandardRequestHandler + luna's fallback
 stall handler), in half of the cases plus a vendor request handler (written here, on the public
-add_request_handler() extension point) that claims exactly one vendor request; a real USBStreamInEndpoint (EP1 IN,
-8-byte packets, stream always valid) supplies traffic "to another endpoint" and a visible data toggle; a passive spy
+add_request_handler() extension point) that claims exactly one vendor request; two real USBStreamInEndpoints (EP1, EP2
+IN, 8-byte packets, stream always valid) supply traffic "to another endpoint" and visible data toggles; a passive spy
 endpoint observes active_address / active_config / clear_endpoint_halt strobes.  12 MHz full-speed tables
 (USBDevice(bus=UTMIInterface())) or the 60 MHz full-speed tables (always_fs=False, full_speed_only held).
 
@@ -29,7 +29,22 @@ configuration do not change, no clear-halt strobe is raised and the EP1 toggle i
 
 Not judged: supported requests (their outcome is C07-C09); what the device answers after it has STALLed once, as long
 as it is neither data nor ACK; OUT data-stage packets may stay unanswered (the statement only forbids an ACK); PING.
-A failed supported request is counted (event `supported_failed`) and reported only under its own mechanism name.
+A failed supported request is only counted (event `supported_failed`).  The effect of a clear-halt strobe on the EP1 / EP2
+toggle is not judged a second time (the strobe is); an unexplained toggle change is.
+
+Mechanism names = effect + classifier context (history pattern only; the verdict never depends on it):
+  * handler context `abandoned`: the host abandoned the previous standard-type transfer (script flag) or an unsupported
+    standard request never reached a STALL, and no supported standard transfer has completed since
+    -> `unsupported_request_{answered,not_stalled,state_changed}_after_abandoned_transfer`;
+  * handler context `clear_feature`: the previous standard-type transfer was an unsupported CLEAR_FEATURE and the host has
+    not sent an ACK while a standard request was current since
+    -> `unsupported_request_{answered,not_stalled,state_changed}_after_unsupported_clear_feature`;
+  * fresh handler, request itself an unsupported CLEAR_FEATURE: `unsupported_clear_feature_clears_halt_on_host_ack`,
+    `unsupported_clear_feature_not_stalled_after_host_ack` (a host ACK was sent since its SETUP),
+    `unsupported_clear_feature_data_stage_not_stalled`;
+  * a supported request that failed on a fresh handler -> context `failed` (`..._after_failed_supported_request`, not known);
+  * everything else: `unsupported_request_<effect>` (answered_with_data, answered_with_zlp, acked, out_data_acked,
+    not_stalled_at_{data_in,status_in,status_out}, address_changed, config_changed, clear_halt_strobe, ...).
 """
 from rv.sim import Bench
 from rv.usb2host import UTMIHost, init_device_signals
@@ -49,7 +64,7 @@ REQUIRED_BINS = ["std_unimplemented_request", "std_request_one_bit_from_supporte
                  "after_unsupported_clear_feature", "after_completed_supported", "endpoint_recipient_value0", "one_field_from_supported", "timing_fs12",
                  "timing_fs60", "tx_backpressure"]
 REQUIRED_EVENTS = ["cycles_monitored", "unsupported_judged", "stall_seen", "setup_acked", "first_in_judged", "out_data_judged",
-                   "bulk_in_packets", "supported_completed", "legit_clear_halt_strobes", "address_changes", "config_changes"]
+                   "bulk_in_packets", "bulk_toggle_checked", "supported_completed", "legit_clear_halt_strobes", "address_changes", "config_changes"]
 ASSUMPTIONS = [
     "supported standard requests are those StandardRequestHandler documents: GET_STATUS, CLEAR_FEATURE(ENDPOINT_HALT) on an "
     "endpoint, SET_ADDRESS, GET_DESCRIPTOR, GET_CONFIGURATION, SET_CONFIGURATION; everything else of type standard is unsupported",
@@ -137,7 +152,7 @@ def gen_unsupported(rng, vendor_present, res):
         else:
             recipient = 2
             value = rng.choice([1, 2, 0x100, 0x8000, rng.randrange(1, 1 << 16)])
-        index = rng.choice([0x81, 0x81, 0x01, 0, 0x82, index])
+        index = rng.choice([0x81, 0x82, 0x82, 0x01, 0, index])
         wlen = rng.choice([0, 0, 0, 0, wlen])
     else:
         typ = rng.choice([1, 2, 2, 3])
@@ -274,15 +289,17 @@ def _build(rng, timing, vendor_present):
     with d.ConfigurationDescriptor() as c:
         with c.InterfaceDescriptor() as i:
             i.bInterfaceNumber = 0
-            with i.EndpointDescriptor() as e:
-                e.bEndpointAddress = 0x81
-                e.wMaxPacketSize = 8
-                e.bmAttributes = USBTransferType.BULK
+            for a in (0x81, 0x82):
+                with i.EndpointDescriptor() as e:
+                    e.bEndpointAddress = a
+                    e.wMaxPacketSize = 8
+                    e.bmAttributes = USBTransferType.BULK
     ep0 = dev.add_standard_control_endpoint(d)
     if vendor_present:
         ep0.add_request_handler(VendorHandler())
-    bulk = USBStreamInEndpoint(endpoint_number=1, max_packet_size=8)
-    dev.add_endpoint(bulk)
+    bulk = [USBStreamInEndpoint(endpoint_number=n, max_packet_size=8) for n in (1, 2)]
+    for e in bulk:
+        dev.add_endpoint(e)
     spy = SpyEndpoint()
     dev.add_endpoint(spy)
     return dev, utmi, bulk, spy
@@ -335,7 +352,7 @@ def run_case(rng, tier, res):
     st = {"cur": None,             # the transfer whose SETUP was sent last: dict(judged, setup, addr, cfg, ...)
           "prev_addr": 0, "prev_cfg": 0,
           "std_stale": None,       # classifier: None | 'abandoned' | 'clear_feature'  (why the standard handler may not be idle)
-          "bulk_expect": U.DATA0, "classes": set()}
+          "bulk_expect": {1: U.DATA0, 2: U.DATA0}, "classes": set()}
 
     def ctx():
         c = st["cur"]
@@ -378,15 +395,16 @@ def run_case(rng, tier, res):
                 flag("config_changed", "cyc=%d configuration %d->%d" % (b.cycle, st["prev_cfg"], c))
             st["prev_cfg"] = c
         if h & 1:
+            if (h >> 2) & 15 in st["bulk_expect"]:
+                st["bulk_expect"][(h >> 2) & 15] = None     # the strobe itself is judged below; its effect on the toggle is not judged twice
             if judged:
                 flag("clear_halt_strobe", "cyc=%d clear-halt strobe dir=%d number=%d" % (b.cycle, (h >> 1) & 1, (h >> 2) & 15))
-                st["bulk_expect"] = None
             elif cur is not None and cur.get("name") == "clear_halt":
                 res.event("legit_clear_halt_strobes")
-                st["bulk_expect"] = None
+                st["bulk_expect"] = {1: None, 2: None}
             else:
                 res.unjudged += 1
-                st["bulk_expect"] = None
+                st["bulk_expect"] = {1: None, 2: None}
 
     def addr():
         return b.get(si.active_address)
@@ -416,22 +434,24 @@ def run_case(rng, tier, res):
         return ok
 
     def bulk_in():
-        """IN to EP1, ACK the data: traffic to another endpoint (its ACK reaches every handler)."""
+        """IN to EP1 / EP2, ACK the data: traffic to another endpoint (its ACK reaches every handler)."""
+        ep = rng.choice([1, 1, 2])
         for _ in range(4):
-            r = yield from host.in_transaction(addr(), 1)
+            r = yield from host.in_transaction(addr(), ep)
             yield from host.gap()
             if r["kind"] == "handshake" and r["pid"] == U.NAK:
                 continue
             if r["kind"] == "data":
                 res.event("bulk_in_packets")
-                exp = st["bulk_expect"]
+                exp = st["bulk_expect"][ep]
                 if exp is not None and r["pid"] != exp:
                     cur = st["cur"]
                     if cur is not None and cur["judged"]:
-                        flag("endpoint_toggle_disturbed", "EP1 sent %s expected %s" % (U.PID_NAMES[r["pid"]], U.PID_NAMES[exp]))
+                        flag("endpoint_toggle_disturbed", "EP%d sent %s expected %s" % (ep, U.PID_NAMES[r["pid"]], U.PID_NAMES[exp]))
                     else:
                         res.unjudged += 1
-                st["bulk_expect"] = U.DATA1 if r["pid"] == U.DATA0 else U.DATA0
+                res.event("bulk_toggle_checked")
+                st["bulk_expect"][ep] = U.DATA1 if r["pid"] == U.DATA0 else U.DATA0
                 if st["cur"] is not None:
                     st["cur"]["host_acks"] += 1
                 # a host ACK releases a standard handler that waits for one
@@ -465,9 +485,23 @@ def run_case(rng, tier, res):
         is_in = bool(s[0] & 0x80)
         first_in_done = False
         first_txn = True
+        seen_tx = [len(host.tx_packets), None]      # [index up to which device packets were examined, packet examined as response]
+        def sweep():
+            # packets the device sends beyond the one answer the host looked at (second / late packets)
+            for extra in host.tx_packets[seen_tx[0]:]:
+                if extra is not seen_tx[1]:
+                    info = U.classify(extra.data)
+                    if info["kind"] == "data":
+                        flag("answered_with_data", "extra device packet %s" % bytes(extra.data).hex())
+                    elif info["kind"] == "handshake" and info["pid"] == U.ACK:
+                        flag("acked", "extra ACK from the device")
+            seen_tx[0] = len(host.tx_packets)
+
         for op in t["plan"]:
+            sweep()
             if op[0] == "bulk":
                 yield from bulk_in()
+                seen_tx[0] = len(host.tx_packets)
                 continue
             if op[0] == "sof":
                 yield from host.sof(rng.randrange(2048))
@@ -482,6 +516,7 @@ def run_case(rng, tier, res):
                         naks += 1
                         continue
                     break
+                seen_tx[1] = r.get("pkt")
                 what = "first IN" if not first_in_done else "later IN"
                 if r["kind"] == "data":
                     flag("answered_with_zlp" if len(r["payload"]) == 0 else "answered_with_data",
@@ -509,6 +544,7 @@ def run_case(rng, tier, res):
                 r = yield from host.out_transaction(addr(), 0, pid, payload)
                 yield from host.gap()
                 res.event("out_data_judged")
+                seen_tx[1] = r.get("pkt")
                 if r["kind"] == "handshake" and r["pid"] == U.ACK:
                     flag("out_data_acked", "OUT(%s, %d bytes) -> ACK" % (role, n))
                 elif r["kind"] == "data":
@@ -520,6 +556,8 @@ def run_case(rng, tier, res):
                     got = "no response" if r["kind"] == "timeout" else "%s" % (bytes(r["pkt"].data).hex() if r.get("pkt") else r["kind"])
                     flag("not_stalled_at_status_out", "OUT status -> %s" % got)
             first_txn = False
+        yield from host.idle(4)
+        sweep()
         # classifier bookkeeping: what this transfer leaves behind in the standard handler
         typ = (s[0] >> 5) & 3
         if typ == 0 and cur["ctx"] is None and st["std_stale"] is None:
@@ -572,8 +610,8 @@ def run_case(rng, tier, res):
                     res.event("supported_failed")
         if done:
             res.event("supported_completed")
-        if name in ("set_config", "clear_halt"):
-            st["bulk_expect"] = None if name == "set_config" else st["bulk_expect"]
+        if name == "set_config":
+            st["bulk_expect"] = {1: None, 2: None}      # a device may reset its toggles on SET_CONFIGURATION
         if typ == 0:
             if done:
                 st["std_stale"] = None
@@ -586,8 +624,9 @@ def run_case(rng, tier, res):
         init_device_signals(b, dev, utmi)
         if timing == "fs60":
             b.set(dev.full_speed_only, 1)
-        b.set(bulk.stream.valid, 1)
-        b.set(bulk.stream.payload, 0x5A)
+        for n, e in enumerate(bulk):
+            b.set(e.stream.valid, 1)
+            b.set(e.stream.payload, 0x5A + n)
         yield from host.idle(8)
         for t in script:
             if t["what"] == "unsupported":
